@@ -491,6 +491,7 @@ func ZZVerifC18() {
 	// the live heap is a few MB while every Sample call allocates: without this the collector
 	// would run every few milliseconds on all cores
 	debug.SetGCPercent(20000)
+	debug.SetMemoryLimit(1 << 30) // ... but never let the heap grow beyond 1 GiB
 
 	// bounds: (kind, max length); "ext" and "weird" enumerate only the vectors that use one of their extra symbols
 	ext := append(append([]float32{}, c18Base...), c18Extra...)
@@ -511,6 +512,9 @@ func ZZVerifC18() {
 			phases[i].hi = min(phases[i].hi, v)
 		}
 		r.NotExhaustive(fmt.Sprintf("C18_MAXLEN=%d debugging cap", v))
+	}
+	if v, err := strconv.Atoi(os.Getenv("C18_BUDGET_S")); err == nil && v > 0 { // for running to completion on a loaded machine
+		budget = time.Duration(v) * time.Second
 	}
 	r.SetDeadline(budget)
 
